@@ -96,4 +96,11 @@ PROPS = {
             {"name": "TestC19E", "quick": 1200, "thorough": 24000, "shards_quick": 3},
         ],
     },
+    "C08": {
+        "level": "exploration",
+        "tests": [
+            {"name": "TestC08A", "quick": 4000, "thorough": 100000, "shards_quick": 10},
+            {"name": "TestC08B", "quick": 240, "thorough": 3000, "shards_quick": 6},
+        ],
+    },
 }
